@@ -427,50 +427,168 @@ def exhaustive_asgi(nops):
     return out
 
 
-def run_wsgi_cases(ctx, falcon, model, cases):
+W_CLAUSES = {1: 'returned bytes are not the declared body at the cursor (prefix)', 2: 'sized read returned more than its size',
+             3: 'wsgi.input asked for bytes beyond Content-Length', 4: 'eof disagrees with what was returned',
+             5: 'bytes taken from wsgi.input but not returned (loss)', 6: 'result shape / unexpected exception',
+             7: 'empty result although the declared body is not over'}
+A_CLAUSES = {1: 'returned bytes are not the declared body at the cursor (prefix)', 2: 'sized read returned more than its size',
+             3: 'receive() awaited although Content-Length bytes had been received', 4: 'tell() disagrees with the bytes returned',
+             5: 'eof reported before the whole declared body was returned', 6: 'receive() awaited after a disconnect',
+             7: 'empty read although not at end-of-stream', 8: 'result shape / undocumented exception'}
+
+
+def wsgi_in_domain(case):
+    cl, data, caps, ops = case
+    return all(not (o[0] in ('read', 'readline', 'readlines', 'exhaust') and o[1] is not None and o[1] < -1)
+               for o in ops)
+
+
+def wsgi_obs_wire(case, r):
+    cl, data, caps, ops = case
+    return [2, cl, data, [[wire_wop(o)] + jd(x) for o, x in zip(ops, r)]]
+
+
+def asgi_obs_wire(case, r):
+    first, cl, events, ops = case
+    return [3, wire_first(first), wire_opt(cl), [wire_event(e) for e in events], r[0][0],
+            [[wire_aop(o)] + jd(x) for o, x in zip(ops, r[1])]]
+
+
+def run_wsgi_cases(ctx, falcon, model, cases, tag='w'):
     wires = [[0, FIXED, cl, data, caps, [wire_wop(o) for o in ops]] for cl, data, caps, ops in cases]
     outs = model.run_many(wires)
-    bad = []
+    impl, bad = [], []
     for i, (case, m) in enumerate(zip(cases, outs)):
         cl, data, caps, ops = case
         r = run_wsgi_impl(falcon, cl, data, caps, ops, via_request=(i % 5 == 0))
+        impl.append(r)
         nontriv = any(x[0][0] in (0, 1, 3) and x[0][1] for x in r)
-        ctx.note_case(('w', i), nontriv)
+        ctx.note_case((tag, i), nontriv)
         ctx.count('wsgi')
-        if jd(r) != m:
+        if m[1] and FIXED and wsgi_in_domain(case):
+            ctx.violation('model-fails-own-oracle', dict(describe_wsgi(case), clauses=m[1],
+                                                         broken='C07.w_oracle_sound'), found_input=False,
+                          key='w-model-oracle')
+        if jd(r) != m[0]:
             ctx.count('wsgi-disagree')
-            bad.append((case, r, m))
-    for case, r, m in bad[:5]:
+            bad.append((i, case, r, m[0]))
+    verdicts = model.run_many([wsgi_obs_wire(c, r) for c, r in zip(cases, impl)])
+    failing = {}
+    for i, (case, r, v) in enumerate(zip(cases, impl, verdicts)):
+        if v and wsgi_in_domain(case):
+            failing[i] = v
+            ctx.count('wsgi-oracle-fail')
+    for i in shortest_per_clause_set(failing, lambda i: (len(cases[i][3]), len(cases[i][1]))):
+        case, v = cases[i], failing[i]
+        first = first_failing_wsgi(model, case, impl[i])
+        ctx.violation('stream-clause-violated',
+                      dict(describe_wsgi(case), impl=impl[i], clauses_failed=v,
+                           clause_names=[W_CLAUSES[c] for c in sorted(set(v))],
+                           first_failing_op=first),
+                      key='wsgi-clause-%s-%s' % (sorted(set(v)), first and first[0]))
+    for i, case, r, m in bad[:5]:
+        if i in failing:
+            continue
         first = next((k for k, (a, b) in enumerate(zip(r, m)) if a != b), None)
         ctx.violation('correspondence-broken',
                       dict(describe_wsgi(case), impl=r, model=m, first_deviating_op=first,
-                           broken='C07.wsgi_corr'), found_input=False, key='wsgi-corr')
-    if cases:
-        ctx.sample(dict(describe_wsgi(cases[0]), impl=run_wsgi_impl(falcon, *cases[0])))
+                           broken='C07.wsgi_corr'), found_input=bool(failing), key='wsgi-corr')
+    if cases and tag == 'w':
+        ctx.sample(dict(describe_wsgi(cases[0]), impl=impl[0]))
+    return failing
 
 
-def run_asgi_cases(ctx, falcon, model, cases):
+def shortest_per_clause_set(failing, size, per=4):
+    """Indices of the few smallest failing cases for every distinct set of failed clauses."""
+    groups = {}
+    for i, v in failing.items():
+        groups.setdefault(tuple(sorted(set(v))), []).append(i)
+    out = []
+    for k in sorted(groups):
+        out += sorted(groups[k], key=size)[:per]
+    return out
+
+
+def first_failing_wsgi(model, case, r):
+    """(operation name, index) of the first operation at which the oracle complains."""
+    cl, data, caps, ops = case
+    for k in range(1, len(ops) + 1):
+        if model.run(wsgi_obs_wire((cl, data, caps, ops[:k]), r[:k])):
+            return [ops[k - 1][0], k - 1]
+    return None
+
+
+def first_failing_asgi(model, case, r):
+    first, cl, events, ops = case
+    if model.run(asgi_obs_wire((first, cl, events, []), [r[0], []])):
+        return ['__init__', -1]
+    for k in range(1, len(ops) + 1):
+        if model.run(asgi_obs_wire((first, cl, events, ops[:k]), [r[0], r[1][:k]])):
+            return [ops[k - 1][0], k - 1]
+    return None
+
+
+def run_asgi_cases(ctx, falcon, model, cases, tag='a'):
     wires = [[1, FIXED, wire_first(first), wire_opt(cl), [wire_event(e) for e in events], [wire_aop(o) for o in ops]]
              for first, cl, events, ops in cases]
     outs = model.run_many(wires)
-    bad = []
+    impl, bad = [], []
     for i, (case, m) in enumerate(zip(cases, outs)):
         first, cl, events, ops = case
         r = run_asgi_impl(falcon, first, cl, events, ops, ctx.rng, via_request=(i % 5 == 0))
+        impl.append(r)
         nontriv = any(x[0][0] == 0 and x[0][1] for x in r[1])
-        ctx.note_case(('a', i), nontriv)
+        ctx.note_case((tag, i), nontriv)
         ctx.count('asgi')
-        if jd(r) != m:
+        if m[2] and FIXED:
+            ctx.violation('model-fails-own-oracle', dict(describe_asgi(case), clauses=m[2],
+                                                         broken='C07.a_oracle_sound'), found_input=False,
+                          key='a-model-oracle')
+        if jd(r) != m[:2]:
             ctx.count('asgi-disagree')
-            bad.append((case, r, m))
-    for case, r, m in bad[:5]:
+            bad.append((i, case, r, m[:2]))
+    verdicts = model.run_many([asgi_obs_wire(c, r) for c, r in zip(cases, impl)])
+    failing = {}
+    for i, v in enumerate(verdicts):
+        if v:
+            failing[i] = v
+            ctx.count('asgi-oracle-fail')
+    for i in shortest_per_clause_set(failing, lambda i: (len(cases[i][3]), len(cases[i][2]))):
+        case, v = cases[i], failing[i]
+        first = first_failing_asgi(model, case, impl[i])
+        ctx.violation('stream-clause-violated',
+                      dict(describe_asgi(case), impl=impl[i], clauses_failed=v,
+                           clause_names=[A_CLAUSES[c] for c in sorted(set(v))],
+                           first_failing_op=first),
+                      key='asgi-clause-%s-%s' % (sorted(set(v)), first and first[0]))
+    for i, case, r, m in bad[:5]:
+        if i in failing:
+            continue
         first_dev = next((k for k, (a, b) in enumerate(zip(r[1], m[1])) if a != b), None)
         ctx.violation('correspondence-broken',
                       dict(describe_asgi(case), impl=r, model=m, first_deviating_op=first_dev,
-                           broken='C07.asgi_corr'), found_input=False, key='asgi-corr')
-    if cases:
-        ctx.sample(dict(describe_asgi(cases[0]), impl=run_asgi_impl(falcon, *cases[0], ctx.rng)))
+                           broken='C07.asgi_corr'), found_input=bool(failing), key='asgi-corr')
+    if cases and tag == 'a':
+        ctx.sample(dict(describe_asgi(cases[0]), impl=impl[0]))
+    return failing
+
+
+def tup(x):
+    return tuple(tup(y) for y in x) if isinstance(x, list) else x
 
 
 def replay(ctx, obj, model=None):
-    pass
+    """Re-run one recorded history on the current implementation and judge it with the oracle."""
+    import falcon
+    model = model or common.Model(ctx)
+    ops = [tuple(o) for o in obj['ops']]
+    if obj.get('side') == 'wsgi':
+        case = (obj['content_length'], obj['data'], obj.get('caps', []), ops)
+        failing = run_wsgi_cases(ctx, falcon, model, [case], tag='replay-w:%s' % obj.get('_file', ''))
+    else:
+        first = obj.get('first_event')
+        first = None if first is None else (first[0], first[1])
+        events = [tuple(e) for e in obj['events']]
+        case = (first, obj['content_length'], events, ops)
+        failing = run_asgi_cases(ctx, falcon, model, [case], tag='replay-a:%s' % obj.get('_file', ''))
+    return failing
